@@ -13,8 +13,11 @@ def run(ctx):
         "real inverse_gate by sweep_C12.py",
         "hand model of scaling_circuit_folding (coq/model/Inverse.v fold_with) tied by vm_compute correspondence",
         "documented gate matrices; numpy oracle",
-        "partial: PauliRotation/UnitaryMatrix inverses, the residual-count arithmetic in binary64, ZNE extrapolation "
-        "(polynomial only) and qsub Inverse (see C19) are decided by the sweep",
+        "the PauliRotation and UnitaryMatrix branches of inverse_gate are extracted too (angle scale; conjugated / transposed "
+        "flags of the matrix chain np.array(...).conj().T) and validated against the real function; their theorems "
+        "(pauli_rotation_inverse_undoes, unitary_matrix_inverse_undoes) are about those regenerated data",
+        "partial: the residual-count arithmetic in binary64, the numerics of the ZNE extrapolation methods (all of them are "
+        "run on noiseless data by the sweep) and qsub Inverse (see C19) are decided by the sweep",
     ]
     known = load_known("C12")
     bad = sorted({m.group(1) for k in known for m in [re.match(r"sweep:inverse_gate:(\w+)$", k)] if m})
